@@ -75,6 +75,11 @@ bool Parser::parseHeaderList(const QList<QByteArray> &lines, Socket::HeaderMap &
             return false;
         }
 
+        // A header line must have a name (anything but whitespace before the ":")
+        if (parts[0].trimmed().isEmpty()) {
+            return false;
+        }
+
         // Trim excess whitespace and add the header to the list
         headers.insert(parts[0].trimmed(), parts[1].trimmed());
     }
